@@ -257,6 +257,19 @@ func initVerifAPI() {
 			in.path.reverseMapOrder = in.decideConst(a[0].(T))
 			return nil
 		},
+		// verifKeyMapOrder(dir): every range over a map with concrete string
+		// or integer keys visits them in ascending (dir > 0) or descending
+		// (dir < 0) key order; 0 switches the mode off.  Other maps are
+		// visited in insertion (dir > 0) or reverse insertion order.
+		"verifKeyMapOrder": func(fr *frame, a []value) value {
+			in := fr.in
+			t := a[0].(T)
+			if t.Op != term.Const {
+				unsupported("verifKeyMapOrder: direction must be concrete")
+			}
+			in.path.keyMapOrder = int(t.SVal())
+			return nil
+		},
 		"verifNondetMapOrder": func(fr *frame, a []value) value {
 			in := fr.in
 			in.path.nondetMapOrder = in.decideConst(a[0].(T))
